@@ -214,10 +214,12 @@ def _obj(i):
 
 def impl(c):
     _, items, container = c.args
-    objs = [_obj(i) for i in items]
-    arg = objs if container == 'list' else (tuple(objs) if container == 'tuple' else iter(objs))
+    def ask():
+        objs = [_obj(i) for i in items]
+        arg = objs if container == 'list' else (tuple(objs) if container == 'tuple' else iter(objs))
+        return [netaddr.spanning_cidr(arg)]
     try:
-        r = netaddr.spanning_cidr(arg)
+        r = common.twice(ask)[0]        # asked twice; the block of the first answer is moved in place in between
     except Exception as e:
         return '!' + errname(e)
     return '%d:%d/%d' % (r.version, r.value, r.prefixlen)
